@@ -216,7 +216,7 @@ def build(files, opts=None, stage="correlate", proj_body="", root=None, keep=Fal
     o = dict(preprocess=False, parallel=0, search=False, creation_date="DATE", year="2000")
     o.update(opts or {})
     buf = io.StringIO()
-    cwd = os.getcwd()
+    saved_cwd = os.getcwd()
     try:
         # FORD may be started from anywhere: the project file's directory (default) or `cwd`
         os.chdir(cwd if cwd is not None else run.root)
@@ -278,7 +278,7 @@ def build(files, opts=None, stage="correlate", proj_body="", root=None, keep=Fal
             except (Exception, SystemExit) as e:  # noqa
                 run.error = e
     finally:
-        os.chdir(cwd)
+        os.chdir(saved_cwd)
         run.log = buf.getvalue()
         if not keep and stage != "write" and run.root and not root:
             # sources are no longer needed once parsed (raw_src is held in memory)
